@@ -86,7 +86,7 @@ def showConns (s : St) : String :=
     match s.info.find? (·.name == c.name) with
     | some i => s!"{stringToHex c.topic}:{tf c.canRead}{tf c.canWrite}:{hexSet i.scopes}:{stringToHex i.ua}:{stringToHex i.remote}:{i.exp}"
     | none => s!"{stringToHex c.topic}:??"
-  joinWith "|" (sortStrings (feeder :: es))
+  joinWith "|" (sortStringsKeep (feeder :: es))
 
 def parseConn (s : String) : Option Nat :=
   match s.toList with
